@@ -7,6 +7,9 @@ V = os.path.dirname(os.path.dirname(os.path.abspath(__file__)))
 
 CHECKS = {
     # id: (category, technique, level text, level_note, design_ref)
+    'C06': ('exploration', 'runtime monitoring of Message.parse: exception-class oracle + executed-line budget (sys.monitoring LINE events) over structure-aware hostile corpora',
+            'Every parse call is watched by a line-event counter that aborts it when it exceeds a linear budget (so a non-terminating parse is detected in-process) and its outcome must be a return, InvalidSyntax or UnsupportedCriticalPayload. Corpora: random bytes, all truncations, byte mutations, a grid over every length/next/more/count/critical field at every nesting level incl. two-field combinations, and the same applied to the plaintext of protected messages re-sealed with the right keys (bad padding, non-block ciphertext, IV only).',
+            'line budget constants fixed a priori (600 + 20/byte + 5/declared DELETE SPI); two cipher suites; messages up to a few hundred bytes plus random ones up to 4096', '2/C06'),
     'C09': ('exploration', 'runtime monitoring of the real event loop: collision monitor + quiescence oracle over exhaustively enumerated and random message-level schedules',
             'Every ordered list of <=2 (thorough: sampled 3) local triggers on either endpoint is interleaved in every possible way with the delivery order of in-flight datagrams, each leaf re-executed through the real main_loop; plus thousands of seeded lossless/lossy walks. After every step: no exception escapes an entry point, no IkeSaStateError, no generic-exception recovery, the (state,event,state\') triple is in the allowed relation, collisions are answered per RFC 7296 2.25; after a lossless drain nobody waits and both tables agree. Held on the executions observed, nothing more.',
             'honest peers with mirror-image configurations; fake kernel and network; timers fired by making the deadline due; transition relation written by hand from the RFC (DESIGN.md appendix A)', '2/C09'),
@@ -19,7 +22,7 @@ CHECKS = {
 }
 
 
-READY = {'C09', 'C10', 'C16'}
+READY = {'C06', 'C09', 'C10', 'C16'}
 
 
 def main():
